@@ -922,6 +922,10 @@ func genCase(t *rapid.T) Case {
 	for i := 0; i < ns; i++ {
 		lbl := fmt.Sprintf("s%d", i)
 		sc := gen.GenSchema(t, gen.SchemaOpts{MinStates: 2, MaxStates: 5, MinAuto: rapid.IntRange(0, 1).Draw(t, lbl+"minAuto")})
+		if rapid.Bool().Draw(t, lbl+"errStates") {
+			// two error states that do not need Exception: the error index must list a record when ANY of them is active
+			sc.States = append(sc.States, gen.StateDef{Name: "ErrA"}, gen.StateDef{Name: "ErrB"})
+		}
 		var s Src
 		s.Schema = sc
 		if rapid.IntRange(0, 2).Draw(t, lbl+"table") != 0 {
